@@ -2980,7 +2980,7 @@ class Interp:
                 if isinstance(sh, Arr) and sh.ndim == 0:
                     lab = lab_of(sh)
                     if lab:
-                        return Arr((lab,), num(c), unit=num(1), fresh=True, dt=dt)
+                        return Arr((lab,), c if isinstance(c, Poly) else num(c), unit=num(1), fresh=True, dt=dt)
                 if isinstance(sh, tuple):
                     dims = []
                     for s in sh:
